@@ -15,6 +15,10 @@ mod simprops2;
 mod c34;
 mod c32;
 mod c25;
+mod lexp;
+mod lexgen;
+mod proggen;
+mod parseprops;
 
 use std::io::{BufRead, Write};
 use std::path::PathBuf;
@@ -49,6 +53,27 @@ fn main() {
         }
         return;
     }
+    if sub == "unidump" {
+        // classification of every non-ASCII Unicode scalar by the real lexer (logos' compiled `\w` / `\d`) and by Rust's
+        // `char::to_uppercase` / `char::escape_debug` (translator input for Lc3V/Gen/UniTables.lean)
+        use logos::Logos; use lc3_ensemble::parse::lex::{Token, Ident};
+        let mut buf = String::new();
+        for cp in 0x80u32..=0x10FFFF { let Some(c) = char::from_u32(cp) else { continue };
+            buf.clear(); buf.push('a'); buf.push(c);
+            let mut lx = Token::lexer(&buf).spanned();
+            let word = matches!(lx.next(), Some((Ok(Token::Ident(Ident::Label(_))), sp)) if sp.end == buf.len());
+            buf.clear(); buf.push('R'); buf.push(c);
+            let mut lx = Token::lexer(&buf).spanned();
+            let digit = matches!(lx.next(), Some((Err(_), sp)) if sp.end == buf.len());
+            let up: Vec<u32> = c.to_uppercase().map(|x| x as u32).collect();
+            let esc: String = c.escape_debug().collect();
+            let plain = esc.chars().count() == 1;
+            if word { println!("w {:x}", cp); } if digit { println!("d {:x}", cp); }
+            if up != vec![cp] { println!("u {:x} {}", cp, up.iter().map(|x| format!("{:x}", x)).collect::<Vec<_>>().join(" ")); }
+            if !plain { println!("e {:x}", cp); }
+        }
+        return;
+    }
     let mut o = util::Out::new(&out);
     match sub.as_str() {
         "c35" => c35::gen(&mut o, &mut ex, seed, thorough),
@@ -67,6 +92,11 @@ fn main() {
         "c29" => simprops2::c29(&mut o, &mut ex, seed, thorough),
         "c30" => simprops2::c30(&mut o, &mut ex, seed, thorough),
         "c33" => simprops2::c33(&mut o, &mut ex, seed, thorough),
+        "lexfid" => { lexgen::gen(&mut o, &mut ex, seed, thorough, 3); o.rule = "lexer fidelity".into(); }
+        "c03" => parseprops::c03(&mut o, &mut ex, seed, thorough),
+        "c04" => parseprops::c04(&mut o, &mut ex, seed, thorough),
+        "c05" => parseprops::c05(&mut o, &mut ex, seed, thorough),
+        "c36" => parseprops::c36(&mut o, &mut ex, seed, thorough),
         "c25" => c25::gen(&mut o, &mut ex, seed, thorough),
         "c34" => c34::gen(&mut o, &mut ex, seed, thorough),
         "c32" => c32::gen(&mut o, &mut ex, seed, thorough),
